@@ -83,12 +83,15 @@ def _meta(dim):
 
 
 SLICE_SHAPES = {2: (3, 4), 3: (2, 3, 4)}
+DEGENERATE_SHAPES = {2: [(1, 4), (3, 1), (1, 1)], 3: [(1, 3, 2), (2, 1, 1), (3, 2, 1)]}
+SLICE_CASES = [dict(dim=d, payload=p) for d in (2, 3) for p in ("scalar", "vector")] + [dict(dim=d, payload="scalar", shape=s) for d in (2, 3) for s in DEGENERATE_SHAPES[d]]
+REDUCE_CASES = [dict(dim=d, mode=m) for d in (2, 3) for m in ("sum", "average")] + [dict(dim=d, mode="average", shape=s) for d in (2, 3) for s in DEGENERATE_SHAPES[d]]
 
 
-@ob("C20.slice", cases=product_cases(dim=(2, 3), payload=("scalar", "vector")), mods=MODS, funcs=FUNCS, samples=(1, 2),
+@ob("C20.slice", cases=SLICE_CASES, mods=MODS, funcs=FUNCS, samples=(1, 2),
     cite="Addressing an axis of an image by its Cartesian name or by its matrix index (in slicing ...) selects the same data")
-def c20_slice(ctx, dim, payload):
-    shape = SLICE_SHAPES[dim]
+def c20_slice(ctx, dim, payload, shape=None):
+    shape = shape or SLICE_SHAPES[dim]
     dims, org = _meta(dim)
     full = list(shape) + ([] if payload == "scalar" else [2])
     arr = ctx.array("a", full)
@@ -112,10 +115,10 @@ def c20_slice(ctx, dim, payload):
                             by_name.space_dim == dim - 1 and by_index.space_dim == dim - 1 and by_name.indexing == by_index.indexing))
 
 
-@ob("C20.reduce", cases=product_cases(dim=(2, 3), mode=("sum", "average")), mods=MODS, funcs=FUNCS, samples=(1, 2),
+@ob("C20.reduce", cases=REDUCE_CASES, mods=MODS, funcs=FUNCS, samples=(1, 2),
     cite="Addressing an axis of an image by its Cartesian name or by its matrix index (... in reduction) selects the same data")
-def c20_reduce(ctx, dim, mode):
-    shape = SLICE_SHAPES[dim]
+def c20_reduce(ctx, dim, mode, shape=None):
+    shape = shape or SLICE_SHAPES[dim]
     arr = ctx.array("a", shape)
     d = ctx.reals("d", dim, pos=True, sample=(0.1, 30.0))
     o = ctx.reals("o", dim, sample=(-50.0, 50.0))
